@@ -1,6 +1,7 @@
 package main
 
 import (
+	"time"
 	"encoding/json"
 	"fmt"
 	"regexp"
@@ -98,7 +99,7 @@ func isNull(v data.Value) bool { _, ok := v.(*data.NullValue); return ok || v ==
 // jsonDecFailures judges json_decode on one text in both modes.
 func jsonDecFailures(e *env, s string) map[[2]string]string {
 	out := map[[2]string]string{}
-	ref, valid := jsonRef(s)
+	ref, valid, judged := jsonRef3(s)
 	nsel := 1
 	if strings.Contains(s, "{") {
 		nsel = 2
@@ -118,6 +119,9 @@ func jsonDecFailures(e *env, s string) map[[2]string]string {
 				break
 			}
 			rejected := r.Kind != "ok" || isNull(r.V)
+			if !judged {
+				continue
+			}
 			if !valid {
 				if !rejected {
 					out[[2]string{mode, "accept-invalid"}] = fmt.Sprintf("%s(%q) = %s, encoding/json rejects the text", mode, trunc(s, 120), show(r.V))
@@ -127,7 +131,7 @@ func jsonDecFailures(e *env, s string) map[[2]string]string {
 			}
 			if ref.K == 'n' {
 				if !rejected {
-					out[[2]string{mode, "decode-kind"}] = fmt.Sprintf("%s(%q) = %s, expected null", mode, trunc(s, 120), show(r.V))
+					out[[2]string{mode, "decode"}] = fmt.Sprintf("%s(%q) = %s, expected null", mode, trunc(s, 120), show(r.V))
 				}
 				continue
 			}
@@ -137,23 +141,12 @@ func jsonDecFailures(e *env, s string) map[[2]string]string {
 			}
 			got := fromData(r.V)
 			if d := diff(ref, got, false); d != "" {
-				out[[2]string{mode, "decode-" + d}] = fmt.Sprintf("%s(%q) = %s (map iteration choice %d), encoding/json reads %s", mode, trunc(s, 120), trunc(got.String(), 200), sel, trunc(ref.String(), 200))
+				out[[2]string{mode, "decode"}] = fmt.Sprintf("%s(%q) = %s (map iteration choice %d), encoding/json reads %s (%s differs)", mode, trunc(s, 120), trunc(got.String(), 200), sel, trunc(ref.String(), 200), d)
 				break
 			}
 		}
 	}
 	return out
-}
-
-func jsonInputClass(mode, s string) string {
-	ref, valid := jsonRef(s)
-	if !valid {
-		return textClass(s)
-	}
-	if mode == "json_decode(default)" && !strings.HasPrefix(strings.TrimLeft(s, " \t\r\n"), "{") {
-		return "non-object-document"
-	}
-	return pToT(ref).class()
 }
 
 // ---- unserialize ----------------------------------------------------------------------------------------
@@ -187,7 +180,7 @@ func serDecFailures(e *env, s string) map[[2]string]string {
 	}
 	if ref.K == 'b' && !ref.B {
 		if !isFalse() {
-			out[[2]string{"unserialize", "decode-kind"}] = fmt.Sprintf("unserialize(%q) = %s, expected false", s, show(r.V))
+			out[[2]string{"unserialize", "decode"}] = fmt.Sprintf("unserialize(%q) = %s, expected false", s, show(r.V))
 		}
 		return out
 	}
@@ -197,17 +190,9 @@ func serDecFailures(e *env, s string) map[[2]string]string {
 	}
 	got := fromData(r.V)
 	if d := diff(ref, got, true); d != "" {
-		out[[2]string{"unserialize", "decode-" + d}] = fmt.Sprintf("unserialize(%q) = %s, the text is the serialization of %s", trunc(s, 120), trunc(got.String(), 200), trunc(ref.String(), 200))
+		out[[2]string{"unserialize", "decode"}] = fmt.Sprintf("unserialize(%q) = %s, the text is the serialization of %s (%s differs)", trunc(s, 120), trunc(got.String(), 200), trunc(ref.String(), 200), d)
 	}
 	return out
-}
-
-func serInputClass(mode, s string) string {
-	ref, verdict := phpUnser(s)
-	if verdict != 1 {
-		return textClass(s)
-	}
-	return pToT(ref).class()
 }
 
 // ---- alphabets ---------------------------------------------------------------------------------------------
@@ -219,8 +204,11 @@ var serTokens = []string{"N;", "b:1;", "i:0;", "i:1;", "i:-1;", "d:0.5;", "s:0:\
 
 type decCodec struct {
 	Name   string
+	Func   string
 	Fails  func(e *env, s string) map[[2]string]string
-	Class  func(mode, s string) string
+	Ref    func(s string) (*P, bool)   // reference reader: value, well-formed
+	Enc    func(p *P) string           // reference encoder
+	ErrCls func(s string) string       // first grammar violation of a malformed text
 	Calls  int64
 	Alpha  map[string][]string
 	Bases  func(quick bool) []string
@@ -228,9 +216,9 @@ type decCodec struct {
 }
 
 var decCodecs = map[string]*decCodec{
-	"json": {Name: "json", Fails: jsonDecFailures, Class: jsonInputClass, Calls: 2,
+	"json": {Name: "json", Func: "json_decode", Fails: jsonDecFailures, Ref: jsonRef, Enc: jsonText, ErrCls: jsonErrClass, Calls: 2,
 		Alpha: map[string][]string{"chars": jsonChars, "tokens": jsonTokens}, Bases: jsonBases, Ladder: jsonLadders},
-	"ser": {Name: "ser", Fails: serDecFailures, Class: serInputClass, Calls: 1,
+	"ser": {Name: "ser", Func: "unserialize", Fails: serDecFailures, Ref: func(s string) (*P, bool) { p, v := phpUnser(s); return p, v == 1 }, Enc: phpSer, ErrCls: serErrClass, Calls: 1,
 		Alpha: map[string][]string{"chars": serChars, "tokens": serTokens}, Bases: serBases, Ladder: serLadders},
 }
 
@@ -343,11 +331,25 @@ func serBases(quick bool) []string {
 	return out
 }
 
-var ladderDepths = []int{1, 2, 3, 4, 5, 8, 16, 32, 63, 64, 65, 70, 100, 128, 400, 511, 512, 513, 1000, 2000, 4096, 5000, 9999, 10000, 10001, 10002, 20000, 32768}
+// 2048 levels of "[" are the 4 KiB of the property's bound; 10000 is encoding/json's own limit.
+var ladderDepthsQuick = []int{1, 2, 3, 4, 5, 8, 16, 32, 63, 64, 65, 70, 100, 128, 400, 511, 512, 513, 1000, 2048, 4096}
+var ladderDepthsThorough = []int{5000, 9999, 10000, 10001, 10002, 20000, 32768}
+
+func ladderDepths(quick bool) []int {
+	if quick {
+		return ladderDepthsQuick
+	}
+	return append(append([]int{}, ladderDepthsQuick...), ladderDepthsThorough...)
+}
 
 func jsonLadders(quick bool) []string {
 	var out []string
-	for _, d := range ladderDepths {
+	if quick { // the limit boundary itself, cheapest shape only
+		for _, d := range []int{10000, 10001} {
+			out = append(out, strings.Repeat("[", d)+strings.Repeat("]", d))
+		}
+	}
+	for _, d := range ladderDepths(quick) {
 		out = append(out,
 			strings.Repeat("[", d)+strings.Repeat("]", d),
 			strings.Repeat("[", d),
@@ -361,7 +363,7 @@ func jsonLadders(quick bool) []string {
 
 func serLadders(quick bool) []string {
 	var out []string
-	depths := append([]int{}, ladderDepths...)
+	depths := ladderDepths(quick)
 	if !quick {
 		depths = append(depths, 100000)
 	}
@@ -369,8 +371,10 @@ func serLadders(quick bool) []string {
 		out = append(out,
 			strings.Repeat("a:1:{i:0;", d)+"N;"+strings.Repeat("}", d),
 			strings.Repeat("a:1:{i:0;", d),
-			strings.Repeat("a:1:{i:0;", d)+"N;"+strings.Repeat("}", d-1),
-			strings.Repeat(`a:1:{s:1:"a";`, d)+"i:1;"+strings.Repeat("}", d))
+			strings.Repeat("a:1:{i:0;", d)+"N;"+strings.Repeat("}", d-1))
+		if d <= 4096 { // origami's string scan is quadratic in the input: keep string-keyed ladders small
+			out = append(out, strings.Repeat(`a:1:{s:1:"a";`, d)+"i:1;"+strings.Repeat("}", d))
+		}
 	}
 	return out
 }
@@ -397,24 +401,74 @@ type textCase struct {
 	Descr string `json:"descr"`
 }
 
+// classify reduces a failing text and names its class:
+//   - well-formed text whose canonical re-encoding fails the same way: reduced as a value tree
+//     (same keys as the value-tree family);
+//   - well-formed text that only fails in this spelling: "spelling" + reduced text;
+//   - malformed text: the first grammar violation reported by the reference reader.
+func (dc *decCodec) classify(e *env, cc [2]string, s string, reduce bool) (cls, red string) {
+	failsText := func(c string) bool { _, bad := dc.Fails(e, c)[cc]; return bad }
+	if ref, ok := dc.Ref(s); ok {
+		t := pToT(ref)
+		if !reduce {
+			if cc[0] == "json_decode(default)" && t.K != 'm' {
+				return "non-object-document", s
+			}
+			return "nesting-ladder", s
+		}
+		failsTree := func(c *T) bool { return failsText(dc.Enc(c.canon())) }
+		cur := s
+		for round := 0; round < 4; round++ {
+			r2, _ := dc.Ref(cur)
+			t = pToT(r2)
+			if failsTree(t) {
+				rt := reduceTree(t, failsTree)
+				return treeKeyClass(cc[0], rt), dc.Enc(rt.canon())
+			}
+			next := reduceText(cur, func(c string) bool { _, ok := dc.Ref(c); return ok && failsText(c) })
+			if next == cur {
+				break
+			}
+			cur = next
+		}
+		if cc[0] == "json_decode(default)" && !strings.HasPrefix(strings.TrimLeft(cur, " \t\r\n"), "{") {
+			return "non-object-document", cur
+		}
+		return "spelling " + textClass(cur), cur
+	}
+	cls = dc.ErrCls(s)
+	if !reduce {
+		return "nesting-ladder " + cls, s
+	}
+	red = reduceText(s, func(c string) bool { return dc.ErrCls(c) == cls && failsText(c) })
+	return cls, red
+}
+
+var decCache = map[string]string{}
+
 func decWorker(w *pool.W, arg json.RawMessage) {
 	var sh decShard
+	t0 := time.Now()
 	json.Unmarshal(arg, &sh)
 	seedRot = sh.Seed
 	e := getEnv()
 	dc := decCodecs[sh.Codec]
 	fs := &failSet{}
 	outcomes := map[string]int64{}
-	cache := map[string]string{}
+	cache := decCache
 	var n int64
+	quickClass := func(s string) string {
+		if ref, ok := dc.Ref(s); ok {
+			return pToT(ref).class()
+		}
+		return dc.ErrCls(s)
+	}
 	one := func(s string, reduce bool) {
 		n++
 		fails := dc.Fails(e, s)
 		if len(fails) == 0 {
-			if _, v := jsonRef(s); sh.Codec == "json" && v {
-				outcomes["json well-formed, agrees"]++
-			} else if _, v := phpUnser(s); sh.Codec == "ser" && v == 1 {
-				outcomes["serialize well-formed, agrees"]++
+			if _, ok := dc.Ref(s); ok {
+				outcomes[sh.Codec+" well-formed, agrees"]++
 			} else {
 				outcomes[sh.Codec+" malformed, rejected"]++
 			}
@@ -422,19 +476,15 @@ func decWorker(w *pool.W, arg json.RawMessage) {
 		}
 		for cc, detail := range fails {
 			outcomes[cc[0]+" "+cc[1]]++
-			ck := cc[0] + "|" + cc[1] + "|" + dc.Class(cc[0], s)
+			ck := cc[0] + "|" + cc[1] + "|" + quickClass(s)
 			if key, ok := cache[ck]; ok {
-				fs.add(key, cc[1], 1<<30, nil, "")
+				if fs.bump(key) {
+					continue
+				}
+				fs.add(key, cc[1], 1<<29+len(s), textCase{Kind: "text", Codec: sh.Codec, Func: cc[0], Text: []byte(trunc(s, 4096)), Descr: trunc(strconv.Quote(s), 200)}, detail)
 				continue
 			}
-			red := s
-			if reduce && len(s) <= 4096 {
-				red = reduceText(s, func(c string) bool { _, bad := dc.Fails(e, c)[cc]; return bad })
-			}
-			cls := dc.Class(cc[0], red)
-			if !reduce && cls != "non-object-document" {
-				cls = "nesting-ladder"
-			}
+			cls, red := dc.classify(e, cc, s, reduce)
 			key := cc[0] + ":" + cls + ":" + cc[1]
 			cache[ck] = key
 			if d, ok := dc.Fails(e, red)[cc]; ok {
@@ -451,10 +501,10 @@ func decWorker(w *pool.W, arg json.RawMessage) {
 	switch sh.Mode {
 	case "seq":
 		alpha := dc.Alpha[sh.Alpha]
-		famName = fmt.Sprintf("%s decoder: all strings of <= k symbols over the %d-symbol %s alphabet", sh.Codec, len(alpha), sh.Alpha)
+		famName = fmt.Sprintf("%s: all strings of <= k symbols over the %d-symbol %s alphabet", dc.Func, len(alpha), sh.Alpha)
 		forSeq(len(alpha), sh.Len, sh.Prefix, func(idx []int) {
 			s := join(alpha, idx)
-			if !w.Item(sh.Codec + " seq " + strconv.Quote(s)) {
+			if !w.Item(dc.Func + " seq " + strconv.Quote(s)) {
 				return
 			}
 			one(s, true)
@@ -462,14 +512,14 @@ func decWorker(w *pool.W, arg json.RawMessage) {
 	case "edit":
 		bases := dc.Bases(sh.Quick)
 		alpha := dc.Alpha["chars"]
-		famName = fmt.Sprintf("%s decoder: edit-distance-1 neighbourhood of reference encodings", sh.Codec)
+		famName = fmt.Sprintf("%s: edit-distance-1 neighbourhood of reference encodings", dc.Func)
 		for i := sh.Lo; i < sh.Hi && i < len(bases); i++ {
 			base := bases[i]
-			if w.Item(sh.Codec + " base " + strconv.Quote(base)) {
+			if w.Item(dc.Func + " base " + strconv.Quote(base)) {
 				one(base, true)
 			}
 			edits(base, alpha, func(kind, s string) {
-				if !w.Item(sh.Codec + " edit " + strconv.Quote(s)) {
+				if !w.Item(dc.Func + " edit " + strconv.Quote(s)) {
 					return
 				}
 				one(s, true)
@@ -477,14 +527,15 @@ func decWorker(w *pool.W, arg json.RawMessage) {
 		}
 	case "ladder":
 		ls := dc.Ladder(sh.Quick)
-		famName = fmt.Sprintf("%s decoder: nesting ladders to depth %d", sh.Codec, ladderDepths[len(ladderDepths)-1])
+		ld := ladderDepths(sh.Quick)
+		famName = fmt.Sprintf("%s: nesting ladders to depth %d", dc.Func, ld[len(ld)-1])
 		for i := sh.Lo; i < sh.Hi && i < len(ls); i++ {
-			if !w.Item(fmt.Sprintf("%s ladder #%d (%d bytes)", sh.Codec, i, len(ls[i]))) {
+			if !w.Item(fmt.Sprintf("%s ladder #%d (%d bytes)", dc.Func, i, len(ls[i]))) {
 				continue
 			}
 			one(ls[i], false)
 		}
 	}
 	fs.flush(w)
-	w.Emit(rec{Kind: "count", Fam: famName, N: n, Calls: n * dc.Calls, Outcome: outcomes})
+	w.Emit(rec{Kind: "count", Fam: famName, N: n, Calls: n * dc.Calls, Outcome: outcomes, Ms: time.Since(t0).Milliseconds()})
 }
